@@ -40,7 +40,10 @@ pub struct PanicInfo {
 impl PanicInfo {
 	/// signature: `<file>::<message with digit runs replaced by #>` (spaces -> `_`)
 	pub fn signature(&self) -> String {
-		format!("panic:{}::{}", short_file(&self.file), normalise(&self.message))
+		// messages often embed input-dependent values: keep only the leading part
+		let m = normalise(&self.message);
+		let cut = m.find(['[', '{', '(']).unwrap_or(m.len()).min(60);
+		format!("panic:{}::{}", short_file(&self.file), m.chars().take(cut).collect::<String>())
 	}
 	pub fn in_repo(&self) -> bool {
 		self.file.contains("versatiles") || self.file.starts_with("/repo")
